@@ -131,6 +131,34 @@ func GenProgram(rng *rand.Rand, id string, cfg Cfg, g GenOpts) *Program {
 	}
 	for len(p.Ops) < g.Ops {
 		x := rng.Intn(100)
+		if g.CrashAt && rng.Intn(10) == 0 && len(g.Keys) >= 6 {
+			// layers: puts of some keys (old segment), their deletes plus garbage (middle segment), more puts (newest
+			// segment); the process dies, the directory is recovered, compacted, and the process dies again
+			ks := []string{g.Keys[rng.Intn(len(g.Keys))], g.Keys[rng.Intn(len(g.Keys))], g.Keys[rng.Intn(len(g.Keys))]}
+			for _, k := range ks {
+				p.Ops = append(p.Ops, Op{Op: "put", K: k, V: fmt.Sprintf("L%d_", len(p.Ops)), VL: 150 + rng.Intn(200)})
+				live[k] = true
+			}
+			others := []string{pick(), pick(), pick()}
+			for _, k := range others {
+				p.Ops = append(p.Ops, Op{Op: "put", K: k, V: fmt.Sprintf("L%d_", len(p.Ops)), VL: 200 + rng.Intn(300)})
+				live[k] = true
+			}
+			for _, k := range ks {
+				p.Ops = append(p.Ops, Op{Op: "del", K: k})
+				delete(live, k)
+			}
+			for _, k := range others {
+				p.Ops = append(p.Ops, Op{Op: "put", K: k, V: fmt.Sprintf("L%d_", len(p.Ops)), VL: 200 + rng.Intn(300)})
+			}
+			for n := 2 + rng.Intn(3); n > 0; n-- {
+				k := pick()
+				p.Ops = append(p.Ops, Op{Op: "put", K: k, V: fmt.Sprintf("L%d_", len(p.Ops)), VL: 100 + rng.Intn(300)})
+				live[k] = true
+			}
+			p.Ops = append(p.Ops, Op{Op: "crashnow"}, Op{Op: "compact"}, Op{Op: "crashnow"}, Op{Op: "readall"})
+			continue
+		}
 		if g.CompactHeavy && rng.Intn(6) == 0 {
 			// several segments' worth of records, part of them overwritten, then a compaction whose
 			// promoted records overflow the current segment
@@ -146,7 +174,25 @@ func GenProgram(rng *rand.Rand, id string, cfg Cfg, g GenOpts) *Program {
 			continue
 		}
 		if g.Sessions && rng.Intn(3) == 0 {
-			switch rng.Intn(3) {
+			switch rng.Intn(4) {
+			case 3:
+				// a session that empties the database, then sessions that fill it again (whatever is kept
+				// per database - e.g. the hash seed chosen for an empty index - must follow)
+				p.Ops = append(p.Ops, Op{Op: "reopen"})
+				for _, k := range g.Keys {
+					if live[k] {
+						p.Ops = append(p.Ops, Op{Op: "del", K: k})
+						delete(live, k)
+					}
+				}
+				p.Ops = append(p.Ops, Op{Op: "reopen"})
+				for n := 5 + rng.Intn(30); n > 0; n-- {
+					k := pick()
+					v, vl := val()
+					p.Ops = append(p.Ops, Op{Op: "put", K: k, V: v, VL: vl})
+					live[k] = true
+				}
+				p.Ops = append(p.Ops, Op{Op: "reopen"}, Op{Op: "readall"})
 			case 0:
 				// a session that only compacts
 				p.Ops = append(p.Ops, Op{Op: "reopen"}, Op{Op: "compact"}, Op{Op: "reopen"})
@@ -271,7 +317,23 @@ func GenProgram(rng *rand.Rand, id string, cfg Cfg, g GenOpts) *Program {
 				}
 				p.Ops = append(p.Ops, Op{Op: "backup", T: 1, Dir: dir, Inject: ins}, Op{Op: "backup_open", Dir: dir})
 			}
-			if g.Scans && rng.Intn(2) == 0 {
+			if g.Scans && len(fresh) > 100 && rng.Intn(2) == 0 {
+				// the scan is paused at a bucket boundary of a long chain (31 slots per bucket), then new keys of the
+				// same hash class split that chain and reuse its freed overflow buckets, then the scan goes on
+				nscan++
+				p.Ops = append(p.Ops, Op{Op: "scan_start", S: nscan, T: 2})
+				for n := 31 * (1 + rng.Intn(3)); n > 0; n-- {
+					p.Ops = append(p.Ops, Op{Op: "next", S: nscan, T: 2})
+				}
+				for n := 25 + rng.Intn(70); n > 0; n-- {
+					if k, ok := takeFresh(); ok {
+						p.Ops = append(p.Ops, Op{Op: "put", K: k, V: "g"})
+						live[k] = true
+						g.Keys = append(g.Keys, k)
+					}
+				}
+				p.Ops = append(p.Ops, Op{Op: "drain", S: nscan, T: 2}, Op{Op: "next", S: nscan, T: 2})
+			} else if g.Scans && rng.Intn(2) == 0 {
 				nscan++
 				p.Ops = append(p.Ops, Op{Op: "scan_start", S: nscan, T: 2})
 				for j := rng.Intn(12); j > 0; j-- {
